@@ -10,6 +10,9 @@ use std::sync::atomic::Ordering;
 use vcommon::*;
 
 mod modes;
+mod modes_immix;
+mod modes_oom;
+mod modes_space;
 mod prog;
 
 fn main() {
@@ -19,11 +22,31 @@ fn main() {
         1 => prog::run::<1>(),
         2 => prog::run::<2>(),
         3 => prog::run::<3>(),
+        // metadata placement tables (bits 2-4 of V; C24): built only with --features placements
+        #[cfg(feature = "placements")]
+        v if v >= 4 => placements(v),
         _ => {
             eprintln!("unknown variant");
             std::process::exit(2);
         }
     }
+}
+
+/// Variants (placement << 2) | unified-reference bit, placement 1..7.
+#[cfg(feature = "placements")]
+fn placements(v: u32) {
+    macro_rules! arms {
+        ($($n:literal),*) => {
+            match v {
+                $($n => prog::run::<$n>(),)*
+                _ => {
+                    eprintln!("unknown variant");
+                    std::process::exit(2);
+                }
+            }
+        };
+    }
+    arms!(4, 5, 8, 9, 12, 13, 16, 17, 20, 21, 24, 25, 28, 29)
 }
 
 pub fn sem_of(code: u64) -> AllocationSemantics {
